@@ -44,7 +44,21 @@ impl Concurrent<VirtualSystem> {
         F: Future<Output = ()>,
     {
         let mut task = pin!(task);
-        while poll!(&mut task).is_pending() {
+        loop {
+            // Another process may have terminated or stopped this process
+            // while it was blocked. A terminated process must not run any
+            // more, and a stopped one not until it is resumed.
+            let state = self.inner.current_process().state();
+            if let ProcessState::Halted(result) = state {
+                if !result.is_stopped() || self.inner.block_while_stopped().await {
+                    return;
+                }
+            }
+
+            if poll!(&mut task).is_ready() {
+                break;
+            }
+
             let state = self.inner.current_process().state();
             match state {
                 ProcessState::Running => {
